@@ -116,3 +116,105 @@ Proof.
   - cbn [bind]. unfold spec_wres. rewrite !map_map, !existsb_map. reflexivity.
   - clear - Hw. induction zs as [|z zs IH]; cbn [map]; constructor; [|exact IH]. apply elem_pipe_q_spec. exact Hw.
 Qed.
+
+(* ---------- a product of more than 53 bits stored into a format with FEWER fraction bits (the wrap register of C03,
+   the imposed formats of C08 beyond their 12-bit domain): operands of any width ---------- *)
+From FxpVerif Require Import Arith ProofsArith.
+
+(* the raw product of _mul_raw is the exact product, in a dtype that carries it *)
+Lemma raw_prod_exact fx fy cx cy : wf_op fx -> wf_op fy -> in_range fx cx -> in_range fy cy ->
+  raw_prod fx fy cx cy = encode (raw_kind OpMul fx fy) (cx * cy) /\ kind_ok (raw_kind OpMul fx fy) (cx * cy)
+  /\ (raw_kind OpMul fx fy = KU -> 0 <= cx * cy) /\ (raw_kind OpMul fx fy = KF -> Z.abs (cx * cy) < 2^53).
+Proof.
+  intros (Hwx & Hfx) (Hwy & Hfy) Hrx Hry. unfold raw_kind, raw_prod. rewrite orb_false_r.
+  destruct (code_mag fx cx Hwx Hrx) as (Sx & UUx). destruct (code_mag fy cy Hwy Hry) as (Sy & UUy).
+  destruct (raw_cast (storage fx) (storage fy) (nw fx + nw fy)) eqn:Erc.
+  - cbn [cast_if]. unfold to_obj. rewrite !load_num. cbn [mbin as_num num_op z_op encode kind_ok].
+    repeat split; try exact I; intros; discriminate.
+  - unfold raw_cast in Erc. apply orb_false_iff in Erc. destruct Erc as (Enb64 & Emixed).
+    assert (Hnb: nw fx + nw fy < 64) by lia.
+    assert (Hsx: storage fx = if sg fx then SI64 else SU64) by (apply storage_small; lia).
+    assert (Hsy: storage fy = if sg fy then SI64 else SU64) by (apply storage_small; lia).
+    rewrite Hsx, Hsy in *. cbn [cast_if].
+    assert (P62: 2^62 < 2^63) by (apply pow2_lt; lia). assert (P63: 2^63 < 2^64) by (apply pow2_lt; lia).
+    assert (Px: 0 < 2^(nw fx - 1)) by (apply pow2_pos; lia). assert (Py: 0 < 2^(nw fy - 1)) by (apply pow2_pos; lia).
+    destruct (sg fx) eqn:Esx, (sg fy) eqn:Esy; cbn [load sdt_eqb negb andb mbin z_op as_num num_to_f64 encode kind_ok] in *.
+    + assert (Bz: Z.abs (cx * cy) <= 2^(nw fx + nw fy - 2)).
+      { rewrite Z.abs_mul. replace (nw fx + nw fy - 2) with ((nw fx - 1) + (nw fy - 1)) by lia. rewrite pow2_split by lia. specialize (Sx eq_refl). specialize (Sy eq_refl). nia. }
+      assert (2^(nw fx + nw fy - 2) <= 2^61) by (apply pow2_le; lia). assert (2^61 < 2^62) by (apply pow2_lt; lia).
+      rewrite wrap_i64_small by lia. repeat split; try lia; intros; discriminate.
+    + assert (Hnb53: nw fx + nw fy <= 53) by lia. specialize (UUy eq_refl). specialize (Sx eq_refl).
+      assert (Bz: Z.abs (cx * cy) < 2^(nw fx + nw fy - 1)).
+      { rewrite Z.abs_mul. replace (nw fx + nw fy - 1) with ((nw fx - 1) + nw fy) by lia. rewrite pow2_split by lia.
+        assert (0 < 2^(nw fy)) by (apply pow2_pos; lia). rewrite (Z.abs_eq cy) by lia. nia. }
+      assert (2^(nw fx + nw fy - 1) <= 2^52) by (apply pow2_le; lia). assert (2^52 < 2^53) by (apply pow2_lt; lia).
+      assert (2^(nw fx - 1) <= 2^52) by (apply pow2_le; lia). assert (2^(nw fy) <= 2^52) by (apply pow2_le; lia).
+      rewrite !f64_of_Z_exact by lia. cbn [f64_op]. rewrite f64_mul_int by lia. repeat split; try lia; intros; discriminate.
+    + assert (Hnb53: nw fx + nw fy <= 53) by lia. specialize (UUx eq_refl). specialize (Sy eq_refl).
+      assert (Bz: Z.abs (cx * cy) < 2^(nw fx + nw fy - 1)).
+      { rewrite Z.abs_mul. replace (nw fx + nw fy - 1) with (nw fx + (nw fy - 1)) by lia. rewrite pow2_split by lia.
+        assert (0 < 2^(nw fx)) by (apply pow2_pos; lia). rewrite (Z.abs_eq cx) by lia. nia. }
+      assert (2^(nw fx + nw fy - 1) <= 2^52) by (apply pow2_le; lia). assert (2^52 < 2^53) by (apply pow2_lt; lia).
+      assert (2^(nw fy - 1) <= 2^52) by (apply pow2_le; lia). assert (2^(nw fx) <= 2^52) by (apply pow2_le; lia).
+      rewrite !f64_of_Z_exact by lia. cbn [f64_op]. rewrite f64_mul_int by lia. repeat split; try lia; intros; discriminate.
+    + specialize (UUx eq_refl). specialize (UUy eq_refl).
+      assert (Bz: 0 <= cx * cy < 2^(nw fx + nw fy)) by (rewrite pow2_split by lia; nia).
+      assert (2^(nw fx + nw fy) <= 2^63) by (apply pow2_le; lia).
+      repeat split; try lia; intros; discriminate.
+Qed.
+
+Lemma rescale_exact_encode K z k pc : k < 0 -> K <> KF -> kind_ok K z -> (K = KU -> 0 <= z) ->
+  rescale true pc (encode K z) k = Ok (MO (NR {| dm := z; de := k |})).
+Proof.
+  intros Hk HK Hok Hpos. unfold rescale. replace (k <? 0) with true by lia. unfold mscale_raw.
+  replace (0 <? k) with false by lia. replace (k <? 0) with true by lia. cbn [andb].
+  destruct K; cbn [encode kind_ok] in *; try reflexivity; try congruence.
+  assert (2^63 < 2^64) by (apply pow2_lt; lia). rewrite wrap_u64_small by (specialize (Hpos eq_refl); lia). reflexivity.
+Qed.
+
+Lemma all_MO_rationals qs : all_MO (map (fun q => MO (NR q)) qs) = Some (map NR qs).
+Proof. induction qs as [|q qs IH]; [reflexivity|]. unfold all_MO in *. cbn [map fold_right]. rewrite IH. reflexivity. Qed.
+
+Theorem mul_into_fewer_fraction_bits fx fy cxs cys ft r o :
+  wf_op fx -> wf_op fy -> 1 <= nw ft -> nf ft - nf fx - nf fy < 0 ->
+  length cxs = length cys -> Forall (in_range fx) cxs -> Forall (in_range fy) cys ->
+  existsb (fun p => 2^53 <=? Z.abs (fst p * snd p)) (combine cxs cys) = true ->
+  arith_raw OpMul fx cxs fy cys ft r o
+  = Ok (spec_wres ft r o (map (fun p => exact_codes OpMul fx (fst p) fy (snd p)) (combine cxs cys))).
+Proof.
+  intros Hx Hy Hw Hk Hlen Hrx Hry Hbig. set (k := nf ft - nf fx - nf fy) in *.
+  assert (Hin: forall p, In p (combine cxs cys) -> in_range fx (fst p) /\ in_range fy (snd p)).
+  { intros [a b] Hp. rewrite Forall_forall in Hrx, Hry. split; [apply Hrx; exact (in_combine_l _ _ _ _ Hp) | apply Hry; exact (in_combine_r _ _ _ _ Hp)]. }
+  (* the product array is not a float64 array: some product needs more than 53 bits *)
+  assert (HK: raw_kind OpMul fx fy <> KF).
+  { intros HKF. apply existsb_exists in Hbig. destruct Hbig as (p & Hp & Hb). destruct (Hin p Hp) as (Ha & Hbb).
+    destruct (raw_prod_exact fx fy (fst p) (snd p) Hx Hy Ha Hbb) as (_ & _ & _ & HF). specialize (HF HKF). lia. }
+  assert (Hex: arith_exact OpMul fx cxs fy cys (nf ft) = true).
+  { cbn [arith_exact]. fold k. replace (k <? 0) with true by lia. cbn [andb].
+    apply existsb_exists in Hbig. destruct Hbig as (p & Hp & Hb). apply existsb_exists. exists p. split; [exact Hp|].
+    destruct (Hin p Hp) as (Ha & Hbb). destruct (raw_prod_exact fx fy (fst p) (snd p) Hx Hy Ha Hbb) as (E & Hok & Hpos & _).
+    rewrite E. destruct (raw_kind OpMul fx fy); cbn [encode int_mag_ge kind_ok] in *; try lia; try congruence.
+    assert (2^63 < 2^64) by (apply pow2_lt; lia). rewrite wrap_u64_small by (specialize (Hpos eq_refl); lia). lia. }
+  unfold arith_raw. rewrite Hex.
+  rewrite (map2M_pairs _ (fun p => MO (NR {| dm := fst p * snd p; de := k |}))); [|exact Hlen|].
+  2: { intros p Hp. destruct (Hin p Hp) as (Ha & Hbb). destruct (raw_prod_exact fx fy (fst p) (snd p) Hx Hy Ha Hbb) as (E & Hok & Hpos & _).
+       unfold raw_elem. fold k. rewrite E. apply rescale_exact_encode; [lia|exact HK|exact Hok|exact Hpos]. }
+  cbn [bind].
+  set (qs := map (fun p : Z * Z => {| dm := fst p * snd p; de := k |}) (combine cxs cys)).
+  assert (Hmap: map (fun p : Z * Z => MO (NR {| dm := fst p * snd p; de := k |})) (combine cxs cys) = map (fun q => MO (NR q)) qs) by (unfold qs; rewrite map_map; reflexivity).
+  rewrite Hmap.
+  assert (Hne: qs <> []).
+  { unfold qs. destruct (combine cxs cys) as [|p l] eqn:Ec; [cbn in Hbig; discriminate|]. cbn. discriminate. }
+  assert (Harr: arr_of (map (fun q => MO (NR q)) qs) = Ok (AObj (map NR qs), VFloat)).
+  { destruct qs as [|q0 qs']; [congruence|]. unfold arr_of. cbn [map].
+    change (MO (NR q0) :: map (fun q => MO (NR q)) qs') with (map (fun q => MO (NR q)) (q0 :: qs')). rewrite all_MO_rationals. reflexivity. }
+  rewrite Harr. cbn [bind fst snd].
+  assert (Hfrac: arr_has_frac (AObj (map NR qs)) = true) by (destruct qs as [|q0 qs']; [congruence|reflexivity]).
+  rewrite (set_val_real_eq _ _ _ _ _ _ _ (obj_path_frac ft true _ VFloat Hfrac) (exact_factor_raw _ _)). cbn [arr_nums bind].
+  rewrite (mapM_Forall2 _ (spec_eres ft r o) _ (map (fun p => exact_codes OpMul fx (fst p) fy (snd p)) (combine cxs cys))).
+  - cbn [bind]. unfold spec_wres. rewrite !map_map, !existsb_map. reflexivity.
+  - unfold qs. clear - Hw. induction (combine cxs cys) as [|p l IH]; cbn [map]; constructor; [|exact IH].
+    apply elem_pipe_raw_rational; [exact Hw|].
+    unfold exact_codes, val_of_code, dy_scale. cbn [exact_op dy_mul dm de].
+    replace (- nf fx + - nf fy + nf ft) with k by (unfold k; lia). apply dy_eqb_refl.
+Qed.
